@@ -80,6 +80,9 @@ pub struct Script {
     pub out_at_last_read: usize,
     pub out_overflow: bool,
     pub flushes: usize,
+    /// transient fault: when > len, the fault at `len` is produced once and the script then
+    /// continues up to resume_len
+    pub resume_len: usize,
 }
 
 impl std::fmt::Debug for Script {
@@ -104,6 +107,7 @@ impl Script {
             out_at_last_read: 0,
             out_overflow: false,
             flushes: 0,
+            resume_len: 0,
         }
     }
 
@@ -148,6 +152,9 @@ impl Read for Script {
         self.out_at_last_read = self.out_len;
         if self.pos >= self.len {
             self.end_hits += 1;
+            if self.resume_len > self.len {
+                self.len = self.resume_len;
+            }
             return fault_result(self.fault);
         }
         let mut n = std::cmp::min(buf.len(), self.len - self.pos);
@@ -687,4 +694,13 @@ pub fn from_utf8_model(v: &[u8]) -> Result<&str, std::str::Utf8Error> {
         Ok(()) => Ok(unsafe { std::str::from_utf8_unchecked(v) }),
         Err(at) => Err(utf8_err(at)),
     }
+}
+
+/// Stub for std::io::Error::is_interrupted (used by the retry loops of read_exact / read_until /
+/// BufReader).  Under CBMC the kind of a bit-packed io::Error is not constant-folded, so every
+/// retry loop is unwound to the bound whenever an error flows through it.  Returning `false` is
+/// exact under the assumption (stated in the evidence) that the transport never produces
+/// ErrorKind::Interrupted; std retries those transparently and no property quantifies over them.
+pub fn never_interrupted(_e: &io::Error) -> bool {
+    false
 }
